@@ -5,10 +5,24 @@ Nothing under the repository is imported or executed.
 from __future__ import annotations
 
 import ast
+import json
 import hashlib
 import os
 from dataclasses import dataclass, field
 from typing import Dict, List, Optional
+
+
+def fingerprint(fn: ast.AST) -> List[str]:
+    """Name-independent sketch of a function body: the attribute names and string constants it mentions (locals excluded)."""
+    out = set()
+    for n in ast.walk(fn):
+        if isinstance(n, ast.Attribute):
+            out.add("." + n.attr)
+        elif isinstance(n, ast.Constant) and isinstance(n.value, str) and len(n.value) < 40 and n is not getattr(getattr(fn, "body", [None])[0], "value", None):
+            out.add("'" + n.value)
+        elif isinstance(n, ast.keyword) and n.arg:
+            out.add("=" + n.arg)
+    return sorted(out)
 
 
 class AnchorMissing(Exception):
@@ -71,6 +85,8 @@ def _dotted(node) -> Optional[str]:
 
 
 class Model:
+    _aliases = None
+
     def __init__(self, root: Optional[str] = None):
         self.root = root or repo_root()
         self.pkg = os.path.join(self.root, "rex")
@@ -186,11 +202,100 @@ class Model:
 
     def func(self, qualname: str) -> FuncInfo:
         if qualname not in self.functions:
+            q2 = self.aliases().get(qualname)
+            if q2 is not None:
+                return self.functions[q2]
             raise AnchorMissing(f"function {qualname} not found")
         return self.functions[qualname]
 
     def has_func(self, qualname: str) -> bool:
-        return qualname in self.functions
+        return qualname in self.functions or qualname in self.aliases()
+
+    def current(self, qualname: str) -> str:
+        """Today's qualified name of a function of the reference tree (renamed nested functions are followed)."""
+        return qualname if qualname in self.functions else self.aliases().get(qualname, qualname)
+
+    def reference(self, qualname: str) -> str:
+        """Reference-tree name of a current function (inverse of `current`)."""
+        for old, new in self.aliases().items():
+            if new == qualname:
+                return old
+        return qualname
+
+    def home_functions(self, qualname: str, _depth: int = 0) -> List[str]:
+        """Where a who-may-call table should look a call site up: the function itself (under its reference name) if the
+        reference tree has it; for a helper introduced later, the reference functions that call the helper (transitively)."""
+        ref = self.reference(qualname)
+        known = self._known_functions()
+        if not known or ref in known or _depth > 3:
+            return [ref]
+        fi = self.functions.get(qualname)
+        if fi is None:
+            return [ref]
+        name = fi.node.name
+        out: List[str] = []
+        for q, other in self.functions.items():
+            if q == qualname or other.module != fi.module:
+                continue
+            own = [n for n in ast.walk(other.node)]
+            nested = {id(x) for d in ast.walk(other.node) if isinstance(d, (ast.FunctionDef, ast.Lambda)) and d is not other.node for x in ast.walk(d)}
+            for n in own:
+                if id(n) in nested or not isinstance(n, ast.Call):
+                    continue
+                f = n.func
+                if (isinstance(f, ast.Name) and f.id == name) or (isinstance(f, ast.Attribute) and f.attr == name):
+                    out.extend(self.home_functions(q, _depth + 1))
+                    break
+        return sorted(set(out)) or [ref]
+
+    def _known_functions(self):
+        if getattr(self, "_known", None) is None:
+            p = os.path.join(os.path.dirname(os.path.abspath(__file__)), "known_api.json")
+            try:
+                self._known = set(json.load(open(p)).get("functions", []))
+            except (OSError, ValueError):
+                self._known = set()
+        return self._known
+
+    def local_name(self, qualname: str) -> str:
+        return self.current(qualname).rsplit(".", 1)[-1]
+
+    def aliases(self) -> Dict[str, str]:
+        """reference qualname -> current qualname for nested functions that were only renamed: a function of the frozen API
+        table that is missing today is matched with the one function of the same (current) parent that the table does not know
+        and that has the same parameter list."""
+        if self._aliases is not None:
+            return self._aliases
+        self._aliases = {}
+        p = os.path.join(os.path.dirname(os.path.abspath(__file__)), "known_api.json")
+        try:
+            known = json.load(open(p))
+        except (OSError, ValueError):
+            return self._aliases
+        kparams = known.get("params", {})
+        kset = set(known.get("functions", []))
+        new = [q for q in self.functions if q not in kset]
+
+        def params(fi):
+            a = fi.node.args
+            return [x.arg for x in a.posonlyargs + a.args + a.kwonlyargs] + (["*" + a.vararg.arg] if a.vararg else []) + (["**" + a.kwarg.arg] if a.kwarg else [])
+        for q in sorted((q for q in kset if q not in self.functions), key=lambda x: x.count(".")):
+            if "." not in q or q not in kparams:
+                continue
+            parent, _ = q.rsplit(".", 1)
+            parent_now = self._aliases.get(parent, parent)
+            if parent_now not in self.functions:
+                continue  # only nested functions (closures) are followed; methods / module functions are API
+            cands = [n for n in new if n.rsplit(".", 1)[0] == parent_now and params(self.functions[n]) == kparams[q] and n not in self._aliases.values()]
+            if len(cands) > 1 and q in known.get("fingerprint", {}):
+                # several renamed siblings with the same signature: take the one whose body mentions the same attributes
+                ref = set(known["fingerprint"][q])
+                scored = sorted(((len(ref & set(fingerprint(self.functions[n].node))) / max(1, len(ref | set(fingerprint(self.functions[n].node)))), n) for n in cands), reverse=True)
+                if scored[0][0] >= 0.6 and (len(scored) == 1 or scored[0][0] > scored[1][0]):
+                    cands = [scored[0][1]]
+            if len(cands) == 1:
+                self._aliases[q] = cands[0]
+        return self._aliases
 
     def cls(self, qualname: str) -> ClassInfo:
         if qualname not in self.classes:
